@@ -333,11 +333,17 @@ def _snap():
     return fp
 
 
+_DIFFS = {}
+
+
 def _diff(entry_fp):
     """[] if the tables have the content they had when entry_fp was taken, else a readable difference"""
     now = _snap()
     if now == entry_fp:
         return []
+    key = (entry_fp, now)
+    if key in _DIFFS:
+        return _DIFFS[key]
     a, b = _CANON[entry_fp][0], _CANON[now][0]
     out = []
     if a != b:
@@ -345,6 +351,7 @@ def _diff(entry_fp):
     if entry_fp[6] != now[6] and not any(x.startswith("UNIT_TYPES") for x in out):
         out.append("UNIT_TYPES: %s -> %s (different class objects)" % ([t.__name__ for t in entry_fp[6]],
                                                                        [t.__name__ for t in now[6]]))
+    _DIFFS[key] = out
     return out
 
 
